@@ -394,7 +394,7 @@ func init() {
 	core.Register(&core.Prop{
 		ID:    "C08",
 		Level: "exploration",
-		Rule:  "JSON: every value to depth 3 (width 2, children from a stride of the previous level plus all container corner cases) over scalars {null,true,false,0,-1.5,1e2,1e19,12345678901234567890,0.1,\"\",\"a\",\"é\",\"\\\"\",\"\\u0000\"} and distinct keys from {\"\",a,b}, read as the whole document, as an element of a top-level array, and copied by the `copy` custom_func through a full Transform; the tree converted back (J2NodeToInterface with type flags) must deep-equal encoding/json's decoding. XML: every element tree with 1-2 elements (3 with reduced alphabets) x 8 namespace decorations (default, prefixed, redeclared, undeclared, two prefixes for one URI, prefix rebound, default+prefix same URI) x attributes {none,k,p:k,xml:lang,k+p:k,empty} x content {none,text,whitespace,entities,CDATA,comment,PI,text-comment-text,text-CDATA-text}; the node tree must equal, token by token, what encoding/xml reports (Token for URIs/values/chardata, RawToken for the prefix written in the document), attributes first; distinct by (kind, document)",
+		Rule:  "JSON: every value to depth 3 (thorough 4; width 2, children from a stride of the previous level plus all container corner cases) over scalars {null,true,false,0,-1.5,1e2,1e19,12345678901234567890,0.1,\"\",\"a\",\"é\",\"\\\"\",\"\\u0000\"} and distinct keys from {\"\",a,b}, read as the whole document, as an element of a top-level array, and copied by the `copy` custom_func through a full Transform; the tree converted back (J2NodeToInterface with type flags) must deep-equal encoding/json's decoding. XML: every element tree with 1-2 elements (3 with reduced alphabets) x 8 namespace decorations (default, prefixed, redeclared, undeclared, two prefixes for one URI, prefix rebound, default+prefix same URI) x attributes {none,k,p:k,xml:lang,k+p:k,empty} x content {none,text,whitespace,entities,CDATA,comment,PI,text-comment-text,text-CDATA-text}; the node tree must equal, token by token, what encoding/xml reports (Token for URIs/values/chardata, RawToken for the prefix written in the document), attributes first; distinct by (kind, document)",
 		Assumptions: []string{
 			"encoding/json and encoding/xml are the reference decoders; objects with duplicate keys are outside the alphabet",
 		},
@@ -419,9 +419,9 @@ func init() {
 				return idx%512 != 0 || !c.TimeUp()
 			}
 			scalars := []string{"null", "true", "false", "0", "-1.5", "1e2", "1e19", "12345678901234567890", "0.1", `""`, `"a"`, `"é"`, `"\""`, `"\u0000"`, "9007199254740993", "1.7976931348623157e308", "-0"}
-			depth := 2
+			depth := 3
 			if !c.Quick() {
-				depth = 3
+				depth = 4
 			}
 			vals := c08JSONValues(depth, scalars, []string{"", "a", "b"}, 2)
 			c.Max("json_values", int64(len(vals)))
@@ -434,7 +434,7 @@ func init() {
 			}
 			for n := 1; n <= 3; n++ {
 				stop := false
-				c08XMLDocs(n, n == 3 || (n == 2 && c.Quick()), func(doc string) bool {
+				c08XMLDocs(n, n == 3, func(doc string) bool {
 					if !try(c08Case{Kind: "xml", Doc: doc}) {
 						stop = true
 						return false
@@ -445,9 +445,7 @@ func init() {
 					return
 				}
 			}
-			if !c.Quick() {
-				c08XMLDocs(2, false, func(doc string) bool { return try(c08Case{Kind: "xml", Doc: doc}) })
-			}
+
 		},
 		Replay: func(raw json.RawMessage) (string, string) {
 			var cs c08Case
